@@ -410,6 +410,9 @@ class Machine:
             elif op == "late":
                 name = None
                 self._late(step)
+            elif op == "late_inv":
+                name = None
+                self._late_inv(step)
             else:
                 raise core.HarnessError("unknown step " + op)
         except (core.HarnessError, core.Abort):
@@ -418,6 +421,23 @@ class Machine:
             exc = e
             name = None
         return name, exc, self.announced[before:]
+
+    def _late_inv(self, step):
+        """Apply the invariant decorator to a class that already exists (and may already have subclasses)."""
+        cname = step["unit"]
+        cls = self.world.classes[cname]
+        run = self.run
+        n = len([s_ for s_ in self.world.contracts if s_.startswith("%s/inv" % cname)])
+        sid = "%s/inv%d" % (cname, n + 10)
+
+        def c(self):
+            return run.hit(sid, "inv", self)
+
+        c.__name__ = "i_" + core._san(sid)
+        dec = icontract.invariant(c, description="[[%s]]" % sid, check_on=core._CHECK_ON[step.get("check_on", "CALL")], enabled=True)
+        dec(cls)
+        self.world.contracts[sid] = dec._invariant
+        return sid
 
     def _late(self, step):
         """Decorate a member of an existing class with the public decorators and re-bind it (K.m = require(...)(K.m))."""
